@@ -131,6 +131,10 @@ def spaces(tier, seed):
                 lats = [k % 3] if quick or wide else [k % 3, (k + 1) % 3]
                 if max(rows, cols) > 100 and not wide:
                     lats = lats + [3]
+                if min(rows, cols) > 102 and not wide:
+                    lats = lats + [4]
+                if min(rows, cols) >= 149 and not wide:
+                    lats = lats + [5]
                 for lat in lats:
                     # memory layout of the caller's arrays (C order / Fortran order / strided view of a larger
                     # array): the same map, so the same result
@@ -493,6 +497,16 @@ def lattice(rows, cols, lat):
         return (rr * 5 + cc * 3) % 7 == 0
     if lat == 1:
         return (rr + cc) % 2 == 0
+    if lat == 4:
+        # next to nothing invalid: the map of this lattice is flat apart from one row and one column (block_map)
+        m = np.zeros((rows, cols), dtype=bool)
+        m[10, 10] = m[rows - 7, cols // 2] = True
+        return m
+    if lat == 5:
+        # one invalid rectangle larger than two processing blocks in each direction, valid pixels all around
+        m = np.zeros((rows, cols), dtype=bool)
+        m[20:126, 20:126] = True
+        return m
     if lat == 3:
         # sparse: a handful of isolated invalid pixels hugging the 50 / 100-pixel block boundaries, every other
         # block free of invalid pixels (a per-block shortcut "no invalid pixel here" must still see its halo)
@@ -514,6 +528,14 @@ def lattice(rows, cols, lat):
 def block_map(rows, cols, lat, off, invk):
     rr, cc = np.meshgrid(np.arange(rows), np.arange(cols), indexing="ij")
     vals = (((rr * rr * 3 + cc * cc * 5 + rr * cc * 7 + off) % 17) / 2.0 - 3.0).astype(np.float32)
+    if lat == 4:
+        # flat map (whole processing blocks hold one single value) crossed by row 100 and column 100 at another
+        # value: the pixels right after the crossing have a window that reaches into the row / column
+        vals = np.full((rows, cols), 1.0, dtype=np.float32)
+        vals[100, :] = 3.0
+        vals[:, 100] = 3.0
+        if rows > 201 and cols > 201:
+            vals[200, :] = vals[:, 200] = -2.0
     inv = lattice(rows, cols, lat)
     vm = np.array(INFO_BITS, dtype=np.uint16)[(rr * 2 + cc) % len(INFO_BITS)]
     ib = np.array(INVALID_BITS, dtype=np.uint16)[(rr + 2 * cc) % 6]
